@@ -362,6 +362,27 @@ pub fn run(a: &Args) -> Batch {
         texts.push(serde_json::to_string(&m).unwrap());
         meta.push(("editor".into(), format!("prefix {}", k)));
     }
+    // a sun-breaker in front of a shipped model: many equal slats, i.e. many obstacles whose centroids coincide on
+    // the longest axis of the set (what the obstacle tree has to split without making progress by position)
+    if let Some((_, cubo)) = corpus::shipped_models().into_iter().find(|(n, _)| n == "cubo.json") {
+        for (x0, n) in [(2.0f32, 36usize), (2.1, 36), (0.3, 48), (7.7, 64)] {
+            let mut m = cubo.clone();
+            for k in 0..n {
+                m.shades.push(Shade {
+                    id: gen::uid(&mut r),
+                    name: format!("lama {}", k),
+                    geometry: WallGeom {
+                        tilt: 0.0,
+                        azimuth: 0.0,
+                        position: Some(nalgebra::point![x0, -3.0, 0.2 + 0.08 * k as f32]),
+                        polygon: vec![nalgebra::point![0.0, 0.0], nalgebra::point![6.1, 0.0], nalgebra::point![6.1, 0.2], nalgebra::point![0.0, 0.2]],
+                    },
+                });
+            }
+            texts.push(serde_json::to_string(&m).unwrap());
+            meta.push(("cubo.json".into(), format!("{} equal slats from x = {}", n, x0)));
+        }
+    }
     for (name, v) in &bases {
         let edits = enumerate(v, cap);
         let nsingle = if a.thorough { edits.len() } else { edits.len().min(a.n * 6) };
@@ -447,7 +468,7 @@ pub fn run(a: &Args) -> Batch {
         agree: "agree_C14".into(),
         cases,
         impl_findings: findings,
-        rule: "fault enumeration over the JSON tree of base models (shipped + generated): every single edit of kinds delete key / delete array item / empty, duplicate, truncate an array / redirect an id to another, nil or fresh id / zero or negate a number (long arrays sampled at their ends and middle in quick), seeded 2- and 3-edit combinations, and the prefixes of an editor-style construction script; models from_json rejects are discarded; each remaining model runs energy_indicators() in a worker process under a 20 s watchdog, followed after a crash by a healthy model in the same process (poisoning); results must serialise and load back; the Coq model decides which damaged models are sane, and those must report finite numbers only; non-trivial = the damaged model still loads and its indicators were computed; distinct by content hash".into(),
+        rule: "fault enumeration over the JSON tree of base models (shipped + generated): every single edit of kinds delete key / delete array item / empty, duplicate, truncate an array / redirect an id to another, nil or fresh id / zero or negate a number (long arrays sampled at their ends and middle in quick), seeded 2- and 3-edit combinations, the prefixes of an editor-style construction script (with and without the general data filled in) and a shipped model behind sun-breakers of 36..64 equal slats; models from_json rejects are discarded; each remaining model runs energy_indicators() in a worker process under a 20 s watchdog, followed after a crash by a healthy model in the same process (poisoning); results must serialise and load back; the Coq model decides which damaged models are sane, and those must report finite numbers only; non-trivial = the damaged model still loads and its indicators were computed; distinct by content hash".into(),
         stats: json!(stats),
     }
 }
